@@ -2322,3 +2322,9 @@ m("C07", "attributes-left-out-of-multipart", "tal.py",
 m("C03", "attribute-format-unescaped", C,
   '''                       node.quote).replace("%", "%%") + "%s" + node.quote''',
   '''                       node.quote) + "%s" + node.quote''')
+
+m("C11", "match-tag-result-untested", "parser.py",
+  '''    if m is None:
+        # e.g. ``</`` that is not followed by a name
+        raise ParseError("Malformed tag.", token)
+''', "")
